@@ -81,6 +81,13 @@ func Reset(umask uint32) error {
 		}
 	}
 	syscall.Umask(0)
+	// the root directory first: what is created in it inherits its group when a history left it set-group-ID
+	if err := os.Chown("/", 0, 0); err != nil {
+		return err
+	}
+	if err := os.Chmod("/", 0o755); err != nil {
+		return err
+	}
 	for _, d := range []struct {
 		p string
 		m os.FileMode
